@@ -106,6 +106,29 @@ Fixpoint record_all (h : hist) (vs : list Z) : hist * Z :=
 
 Definition reset (h : hist) : hist := mkHist (h_cfg h) 0 (fun _ => 0).
 
+(* RecordCorrectedValue(v, e): v itself and then, when 0 < e < v, the back-filled values v-e, v-2e, ... for as long as
+   they are at least e; the first rejected value ends the call with an error (what was recorded before it stays) *)
+Fixpoint backfill (fuel : nat) (m e : Z) : list Z :=
+  match fuel with
+  | O => []
+  | S f => if e <=? m then m :: backfill f (m - e) e else []
+  end.
+Definition corrected_values (v e : Z) : list Z :=
+  v :: (if (e <=? 0) || (v <=? e) then [] else backfill (Z.to_nat (v / e)) (v - e) e).
+Fixpoint record_until_fail (h : hist) (vs : list Z) : hist * bool :=
+  match vs with
+  | [] => (h, true)
+  | v :: r => match record_value h v with Some h' => record_until_fail h' r | None => (h, false) end
+  end.
+Definition record_corrected (h : hist) (v e : Z) : hist * bool := record_until_fail h (corrected_values v e).
+(* a sequence of RecordCorrectedValue calls: final state and, per call, whether it returned nil *)
+Fixpoint record_corrected_all (h : hist) (ops : list (Z * Z)) : hist * list bool :=
+  match ops with
+  | [] => (h, [])
+  | (v, e) :: r => let '(h1, ok) := record_corrected h v e in
+                   let '(h2, oks) := record_corrected_all h1 r in (h2, ok :: oks)
+  end.
+
 (* ---- iteration: the (bucket, sub-bucket) cells in iterator order ---- *)
 
 Definition zrange (a n : Z) : list Z := map (fun k => a + Z.of_nat k) (seq 0 (Z.to_nat n)).
